@@ -364,6 +364,11 @@ def finish(run, level_text=""):
             rp = v.get("_replay")
             if rp and rp.get("pipeline") in REPLAYERS:
                 if not REPLAYERS[rp["pipeline"]](run, rp):
+                    if "hang" in str(v.get("clause")) or "killed" in str(v.get("clause")):
+                        # a watchdog observation (wall clock) that does not recur when the input is run alone: machine load, no verdict
+                        lines.append("NOTE: a time limit was exceeded once and not again when the input was run alone (machine load): %s" % json.dumps(key)[:200])
+                        run.notes.append("timing observation not reproduced and discarded: %s" % json.dumps(key)[:200])
+                        continue
                     # not a function of this one input: does it recur when the same history of calls is made again?
                     if run.replay or not history_replay(run.prop, run.tier, run.seed, key):
                         raise Broken("failure not reproduced by single-case replay: %s" % json.dumps(key)[:300])
@@ -376,7 +381,7 @@ def finish(run, level_text=""):
             violations += 1
             if violations >= 5:
                 break
-        code = 1
+        code = 1 if violations else 0
     for d in run.drift[:5]:
         lines.append("DRIFT: model and code differ (not a property verdict): %s" % json.dumps(d)[:300])
     ev = {
